@@ -140,7 +140,7 @@ def probe_jobs(kind: str, n: int, seed: int, start: int = 0, classes=("ih5", "mf
         for s in range(n):
             tid += 1
             jobs.append({"tid": tid, "kind": kind, "cls": cls, "seed": seed * 31 + tid, **kw,
-                         **({"uncommitted_tail": s % 3 == 2, "npatches": 1 + s % 3} if kind == "corruption" else {})})
+                         **({"uncommitted_tail": s % 3 == 2, "npatches": 1 + s % 3, "big": s % 3 == 1} if kind == "corruption" else {})})
     return jobs
 
 
